@@ -567,7 +567,7 @@ func rulePublish(c *Ctx) {
 			"the handler numbers the document version (under the publication lock) before starting the analysis and hands that number to it",
 			"the background analysis is started without a version number obtained synchronously in the handler: the goroutine cannot tell whether its text is still the latest")
 	}
-	c.census("C-PUBLISH", "go statements starting analyses that publish", nGo, 2)
+	c.census("C-PUBLISH", "go statements starting analyses that publish", nGo, 1)
 	// C13-SKIP: a background analysis that was started for the latest version ends with a publication attempt.
 	// A return that no publication attempt precedes may only depend on the request itself (no client, no file
 	// path) - never on state that earlier analyses left behind (a cache of "already analysed" texts).
